@@ -202,6 +202,35 @@ def gen_data(rng, geo, nb, kind, n, meta=None, tag="b"):
     return data
 
 
+def _rebalance(rng, geo, nb, n, data):
+    """rescale the bunches in place so that bunch b integrates (Simpson weights of PhaseSpace::simpsonWeights in both
+    directions) to share_b*(1+e_b) with the e_b of both signs and the total equal to one to double precision"""
+    h3 = geo.d0 / 3.0
+    ws = [h3] + [h3 * (4.0 if x % 2 == 1 else 2.0) for x in range(1, n - 1)] + [h3]
+    ints = []
+    for b in range(nb):
+        ints.append(sum(ws[x] * ws[y] * data[(b * n + x) * n + y] for x in range(n) for y in range(n)))
+    filled = [b for b in range(nb) if geo.fs[b] > 0 and ints[b] > 0]
+    if len(filled) < 2:
+        return False
+    tgt = list(geo.fs)
+    a, c = filled[0], filled[-1]
+    shift = rng.choice([0.1, 0.25, 0.4]) * min(tgt[a], tgt[c])
+    tgt[a] += shift
+    tgt[c] -= shift
+    for b in range(nb):          # an empty bucket that holds charge takes it from a filled one
+        if geo.fs[b] <= 0 and ints[b] > 0:
+            tgt[b] = 0.1 * tgt[a]
+            tgt[a] -= tgt[b]
+    for b in range(nb):
+        if ints[b] > 0:
+            f = tgt[b] / ints[b]
+            for x in range(n):
+                for y in range(n):
+                    data[(b * n + x) * n + y] = f32(data[(b * n + x) * n + y] * f)
+    return True
+
+
 HISTORIES = {
     "fresh": [],
     "share": [3, 0, 1, 2, 6, 7],          # normalize on a fresh cache, refresh, moments
@@ -241,6 +270,12 @@ def gen_case(rng, cid, stream, sizes=None, force=None):
         k2 = "int" if exact else "rand"
         data2 = gen_data(rng, geo2, nb, k2, n)
         hname = force.get("hist") or rng.choice(list(HISTORIES) + ["random"])
+        if nb >= 2 and not exact and kind != "signed" and (force.get("balance") or (force.get("balance") is None and rng.random() < 0.2)):
+            # total charge exactly one, shares off: one bunch holds what another lacks.  integrateAndNormalize() must
+            # still restore every bunch's own share (a renormalisation that looks at the total only does nothing here)
+            if _rebalance(rng, geo, nb, n, data):
+                hname = rng.choice(["loop-renorm", "loop-renorm-stale"])
+                meta["balanced_total"] = True
         if kind == "signed":
             ops = [rng.choice([0, 1, 2]) for _ in range(rng.randint(0, 4))]
             hname = "linear"
